@@ -43,7 +43,7 @@ macro_rules! dt_shift {
     ($holds:ident, $mustpanic:ident, $method:ident, $mult:expr) => {
         /// time of day and offset are unchanged
         pub fn $holds(d: i32, n: u64, off: i32, k: u32) {
-            assume(n < NPD as u64 && valid_off(off));
+            assume(n < NPD as u64); assume(off > -86_400); assume(off < 86_400);
             let (y, m, dd) = days_to_date(d);
             let (hy, tm, td) = spec_shift_months(y, m, dd, ($mult as i64) * k as i64);
             assume(spec_target_ok(hy, tm, td));
@@ -51,7 +51,7 @@ macro_rules! dt_shift {
             assert!(r.days as i64 == spec_rd(hy as i32, tm, td) && r.nanoseconds == n && off_secs(r.offset) == off);
         }
         pub fn $mustpanic(d: i32, n: u64, off: i32, k: u32) {
-            assume(n < NPD as u64 && valid_off(off));
+            assume(n < NPD as u64); assume(off > -86_400); assume(off < 86_400);
             let (y, m, dd) = days_to_date(d);
             let (hy, tm, td) = spec_shift_months(y, m, dd, ($mult as i64) * k as i64);
             assume(!spec_target_ok(hy, tm, td));
